@@ -170,7 +170,7 @@ func (c *deleteCleaner) applyAgeLimit(segments []*segment) ([]*segment, error) {
 	// Collect all segments whose last-written timestamp is less than the TTL
 	// with the exception of the active (last) segment.
 	for i, seg := range segments {
-		if i != len(segments)-1 && seg.lastWriteTime < ttl {
+		if i != len(segments)-1 && seg.LastWriteTime() < ttl {
 			toDelete = append(toDelete, seg)
 		} else {
 			idx = i
